@@ -66,6 +66,9 @@ CLEAN = [
     {'name': 'collection-ops-with-deleted-and-required', 'schema': 'S1',
      'ops': [["new", 0, 1, [[5, ["i", 0]]]], ["new", 0, 2, [[5, ["i", 0]]]], ["new", 5, 1, [[1, ["o", 0]]]], ["new", 4, 1, [[1, ["o", 0]]]],
              ["new", 2, 1, []], ["commit"], ["del", 4], ["rem", 0, 10, [2]], ["add", 1, 9, [3]], ["set", 0, 10, ["os", []]], ["add", 4, 1, [0]]]},
+    {'name': 'deleted-object-as-reference-target', 'schema': 'S1',      # Set.reverse_add refuses deleted owners before any mutation (repo 907c292)
+     'ops': [["new", 0, 1, [[5, ["i", 0]]]], ["new", 1, 1, []], ["new", 2, 1, []], ["commit"], ["del", 1], ["del", 2],
+             ["set", 0, 6, ["o", 1]], ["add", 0, 7, [2]], ["set", 0, 7, ["os", [2]]]]},
     {'name': 'set-many-single-closure', 'schema': 'S1',
      'ops': [["new", 0, 1, [[5, ["i", 0]]]], ["new", 3, 1, [[1, ["o", 0]]]], ["new", 1, 1, []], ["setm", 0, [[6, ["o", 2]], [8, ["n"]]]]]},
     {'name': 'cascade-on-column-side-then-deleted-partner', 'schema': 'S3',
